@@ -1,11 +1,600 @@
 package rules
 
 import (
+	"go/ast"
+	"go/token"
+	"go/types"
+	"strings"
+
 	"gnetlint/core"
+	"gnetlint/flow"
 )
 
 func init() {
+	describe(&PropInfo{ID: "C07", QuickConfigs: []core.Config{cfgPollOpt},
+		Explanation: "Decides acquire/transfer/close pairing and the closed list of close sites: (1) every descriptor acquired into a local of package gnet " +
+			"(socket.Accept, socket.Dup) is, on every CFG path, closed, handed to a conn constructor or returned before the function returns, and never closed twice; " +
+			"socket constructors register their error-path closer right after the acquisition; (2) unix.Close is called only from an enumerated table of owner functions and " +
+			"Poller.Close only from engine teardown / constructor failure paths; (3) conn typestate: no syscall or poller call takes c.fd/&c.pollAttachment after a point where user code " +
+			"or close may have closed the connection, or after unix.Close(c.fd); (4) Dup results are returned, never stored; (5) on a registry miss only the listener dispatch and " +
+			"poller.Delete touch the event's fd; (6) poller.Delete(c.fd) precedes unix.Close(c.fd), listener.close unlinks unix sockets inside its Once; (7) Poller.Close never " +
+			"dereferences a pointer field that OpenPoller has not assigned yet at the failure call sites. fd-number reuse races between goroutines and stale events inside one epoll batch are not decided.",
+		Assumptions: []string{"the kernel closes a descriptor exactly when close(2) is called on it; numbers are reused lowest-first",
+			"user code does not close framework descriptors behind its back"}})
+
+	register(&core.Rule{ID: "C07.1", Prop: "C07", MinSites: 6,
+		Desc: "fd typestate: a descriptor acquired by socket.Accept/socket.Dup into a local is closed, handed to a conn constructor or returned on every path to a return, and never closed twice; socket constructors register a deferred closer guarded by the error result immediately after sysSocket succeeds",
+		Run:  runC07_1})
+	register(&core.Rule{ID: "C07.2", Prop: "C07", MinSites: 10,
+		Desc: "who-may-close: unix.Close is called only from the owner table; Poller.Close only from closeEventLoops and constructor/start failure paths",
+		Run:  runC07_2})
 	register(&core.Rule{ID: "C07.3", Prop: "C07", MinSites: 12,
 		Desc: "conn typestate: every syscall/poller call taking c.fd or &c.pollAttachment runs while c is known open on all paths (no may-close point since the last liveness fact) and never after unix.Close(c.fd)",
-		Run: func(c *core.Ctx) { runConnState(c, "fd") }})
+		Run:  func(c *core.Ctx) { runConnState(c, "fd") }})
+	register(&core.Rule{ID: "C07.4", Prop: "C07", MinSites: 2,
+		Desc: "descriptors duplicated for the user (Conn.Dup, listener dup) are returned directly and never stored or closed by the framework",
+		Run:  runC07_4})
+	register(&core.Rule{ID: "C07.5", Prop: "C07", MinSites: 2, Applies: func(c core.Config) bool { return !c.HasTag("poll_opt") },
+		Desc: "stale-event guard: when the registry has no conn for the event's fd, the only calls receiving that fd are the listener dispatch and poller.Delete",
+		Run:  runC07_5})
+	register(&core.Rule{ID: "C07.6", Prop: "C07", MinSites: 2,
+		Desc: "poller.Delete(c.fd) is evaluated before unix.Close(c.fd); listener.close runs under its sync.Once, closes the fd and removes the socket file of unix listeners",
+		Run:  runC07_6})
+	register(&core.Rule{ID: "C07.7", Prop: "C07", MinSites: 1,
+		Desc: "constructor-failure safety: at every poller.Close() inside OpenPoller, each pointer field that Close dereferences without a nil test has been assigned",
+		Run:  runC07_7})
+}
+
+func runC07_1(c *core.Ctx) {
+	v := vocabOf(c)
+	if v == nil {
+		return
+	}
+	for _, f := range v.funcs {
+		type unit struct {
+			name string
+			body *ast.BlockStmt
+		}
+		units := []unit{{f.Name, f.Decl.Body}}
+		k := 0
+		ast.Inspect(f.Decl.Body, func(n ast.Node) bool {
+			if fl, ok := n.(*ast.FuncLit); ok {
+				k++
+				units = append(units, unit{f.Name + "$lit" + string(rune('0'+k)), fl.Body})
+			}
+			return true
+		})
+		for _, u := range units {
+			g := flow.New(c.P.Fset, f.Info, u.body)
+			for _, src := range findFdSources(f.Info, g) {
+				for _, is := range analyseFd(c, v, f, g, src) {
+					c.Check(is.ok, u.name, src.what+" into "+src.v.Name()+": "+is.construct, is.pos, "descriptor closed, handed over or returned on this path", is.msg)
+				}
+			}
+		}
+	}
+	// socket constructors: deferred closer registered right after sysSocket
+	sysSocket := c.P.Func("pkg/socket", "sysSocket")
+	if !c.Need("socket.sysSocket", sysSocket) {
+		return
+	}
+	for _, pk := range c.P.Pkgs {
+		if pk != c.P.Pkg("pkg/socket") {
+			continue
+		}
+		for _, d := range c.P.FuncsOf(pk) {
+			obj, _ := pk.TypesInfo.Defs[d.Name].(*types.Func)
+			f := &fn{P: c.P, Obj: obj, Decl: d, Info: pk.TypesInfo, Pkg: pk, Name: core.FuncName(obj)}
+			var acq *ast.CallExpr
+			for _, call := range callsIn(d.Body, false) {
+				if flow.IsCall(f.Info, call, sysSocket) {
+					acq = call
+				}
+			}
+			if acq == nil {
+				continue
+			}
+			g := f.Graph()
+			// the deferred closer
+			var closerDefer *ast.DeferStmt
+			var fdVar types.Object
+			ast.Inspect(d.Body, func(n ast.Node) bool {
+				if as, ok := n.(*ast.AssignStmt); ok && len(as.Rhs) == 1 && ast.Unparen(as.Rhs[0]) == ast.Expr(acq) {
+					fdVar = flow.ObjOf(f.Info, as.Lhs[0])
+				}
+				return true
+			})
+			errRes := namedErrResult(f)
+			for _, ds := range g.Defers {
+				fl, ok := ds.Call.Fun.(*ast.FuncLit)
+				if !ok {
+					continue
+				}
+				lg := f.litGraph(fl)
+				const fErr = 1
+				p := &flow.Problem{Must: true}
+				p.Edge = func(e *flow.Edge, in uint64) uint64 {
+					if e.Cond != nil && e.Tag == nil {
+						if x, y, op, ok := flow.Cmp(e.Cond); ok && flow.IsNil(f.Info, y) && flow.ObjOf(f.Info, x) == errRes && errRes != nil {
+							if (op == token.NEQ && e.Sense) || (op == token.EQL && !e.Sense) {
+								in |= fErr
+							}
+						}
+					}
+					return in
+				}
+				sol := lg.Solve(p)
+				sol.Walk(func(b *flow.Block, i int, n ast.Node, before uint64) {
+					for _, call := range flow.Calls(n) {
+						if flow.IsPkgFunc(f.Info, call, unixPkg, "Close") && len(call.Args) == 1 && flow.ObjOf(f.Info, call.Args[0]) == fdVar && fdVar != nil {
+							if before&fErr != 0 {
+								closerDefer = ds
+							}
+						}
+					}
+				})
+			}
+			if closerDefer == nil || fdVar == nil {
+				c.Violate(f.Name, "deferred closer after sysSocket", acq.Pos(), "no deferred function closes the new socket under `err != nil`: every later error return leaks it")
+				continue
+			}
+			// every return after the acquisition succeeded is dominated by the defer registration
+			const (
+				fAcq = 1 << iota
+				fDefer
+			)
+			p := &flow.Problem{Must: false}
+			p.Node = func(b *flow.Block, i int, n ast.Node, in uint64) uint64 {
+				if n == ast.Node(closerDefer) {
+					return in | fDefer
+				}
+				return in
+			}
+			// may-problem on "acquired and defer not yet registered": use an automaton instead
+			au := &flow.Auto{Start: 0}
+			au.Node = func(b *flow.Block, i int, n ast.Node, s int) int {
+				for _, call := range flow.Calls(n) {
+					if call == acq {
+						s |= fAcq
+					}
+				}
+				if n == ast.Node(closerDefer) {
+					s |= fDefer
+				}
+				return s
+			}
+			au.Edge = func(e *flow.Edge, s int) int {
+				// the failure edge of the acquisition itself holds nothing
+				if s&fAcq != 0 && s&fDefer == 0 && e.Cond != nil && e.Tag == nil {
+					if x, y, op, ok := flow.Cmp(e.Cond); ok && flow.IsNil(f.Info, y) && flow.ObjOf(f.Info, x) == errRes {
+						if (op == token.NEQ && e.Sense) || (op == token.EQL && !e.Sense) {
+							return 0
+						}
+					}
+				}
+				return s
+			}
+			sol := g.Run(au)
+			sol.AtExit(func(b *flow.Block, _ uint64) {
+				bad := false
+				for _, s := range flow.States(sol.Out(b)) {
+					if s&fAcq != 0 && s&fDefer == 0 {
+						bad = true
+					}
+				}
+				c.Check(!bad, f.Name, "return after sysSocket", b.Return.Pos(), "closer registered before this return",
+					"this return is reachable after sysSocket succeeded but before the deferred closer is registered: the socket leaks on this path")
+			})
+		}
+	}
+}
+
+func namedErrResult(f *fn) types.Object {
+	if f.Decl.Type.Results == nil {
+		return nil
+	}
+	for _, fl := range f.Decl.Type.Results.List {
+		for _, nm := range fl.Names {
+			if o := f.Info.Defs[nm]; o != nil && isErrorType(o.Type()) {
+				return o
+			}
+		}
+	}
+	return nil
+}
+
+// closeOwners: functions (any config) allowed to call unix.Close, with the reason.
+var closeOwners = map[string]string{
+	"gnet.(*eventloop).close":      "the single close path of a registered connection (behind its stale guard)",
+	"gnet.(*eventloop).register0":  "registration failed: the conn never became visible",
+	"gnet.(*eventloop).accept0":    "hand-over to the target loop failed",
+	"gnet.(*listener).close":       "listener teardown under closeOnce",
+	"gnet.(*Client).EnrollContext": "duplicated descriptor not yet owned by a conn (error paths)",
+	"gnet.(*eventloop).enroll":     "duplicated descriptor not yet owned by a conn (error paths)",
+	"netpoll.(*Poller).Close":      "poller teardown",
+	"socket.tcpSocket":             "constructor failure closer",
+	"socket.udpSocket":             "constructor failure closer",
+	"socket.udsSocket":             "constructor failure closer",
+	"socket.sysSocket":             "SetNonblock failed on a socket nobody has seen yet",
+	"socket.sysAccept":             "SetNonblock failed on a socket nobody has seen yet",
+}
+
+var pollerCloseCallers = map[string]string{
+	"gnet.(*engine).closeEventLoops": "engine teardown after all loops were joined",
+	"netpoll.OpenPoller":             "constructor failure",
+}
+
+func runC07_2(c *core.Ctx) {
+	pollerClose := c.P.Func("pkg/netpoll", "Poller.Close")
+	if !c.Need("Poller.Close", pollerClose) {
+		return
+	}
+	allFuncs(c, func(f *fn) {
+		for _, call := range callsIn(f.Decl.Body, true) {
+			if flow.IsPkgFunc(f.Info, call, unixPkg, "Close") || flow.IsPkgFunc(f.Info, call, "syscall", "Close") {
+				why, ok := closeOwners[f.Name]
+				arg := ""
+				if len(call.Args) == 1 {
+					arg = exprStr(call.Args[0])
+				}
+				c.Check(ok, f.Name, "unix.Close("+arg+")", call.Pos(), "owner: "+why,
+					"unix.Close is called from a function that is not in the table of descriptor owners: a second close path makes double close / close of a reused number possible")
+			}
+			if flow.IsCall(f.Info, call, pollerClose) {
+				why, ok := pollerCloseCallers[f.Name]
+				c.Check(ok, f.Name, "Poller.Close()", call.Pos(), "allowed: "+why,
+					"Poller.Close is called outside engine teardown / constructor failure: a loop may still be polling the descriptor")
+			}
+		}
+	})
+	// closeEventLoops is reached only after Wait() (or on start failure before any loop ran / client stop)
+	cel := c.P.Func("", "engine.closeEventLoops")
+	if !c.Need("closeEventLoops", cel) {
+		return
+	}
+	allFuncs(c, func(f *fn) {
+		if f.Pkg != c.P.Pkg("") {
+			return
+		}
+		for _, call := range callsIn(f.Decl.Body, true) {
+			if !flow.IsCall(f.Info, call, cel) {
+				continue
+			}
+			switch f.Name {
+			case "gnet.(*engine).stop", "gnet.(*Client).Stop":
+				// must be after concurrency.Wait()
+				const fWaited = 1
+				p := &flow.Problem{Must: true}
+				p.Node = func(b *flow.Block, i int, n ast.Node, in uint64) uint64 {
+					for _, cl := range flow.Calls(n) {
+						if cf := flow.CalleeFunc(f.Info, cl); cf != nil && cf.Name() == "Wait" && cf.Pkg() != nil && strings.HasSuffix(cf.Pkg().Path(), "errgroup") {
+							in |= fWaited
+						}
+					}
+					return in
+				}
+				sol := f.Graph().Solve(p)
+				sol.Walk(func(b *flow.Block, i int, n ast.Node, before uint64) {
+					for _, cl := range flow.Calls(n) {
+						if cl == call {
+							c.Check(before&fWaited != 0, f.Name, "closeEventLoops after Wait", cl.Pos(), "pollers and listeners are closed only after every loop goroutine was joined",
+								"pollers/listeners can be closed while event loops are still running (Wait() does not dominate closeEventLoops)")
+						}
+					}
+				})
+			case "gnet.run", "gnet.(*Client).Start":
+				c.Ok(f.Name, "closeEventLoops on start failure", call.Pos(), "start failed: allowed teardown of partially built loops")
+			default:
+				c.Violate(f.Name, "closeEventLoops", call.Pos(), "closeEventLoops is called from an unexpected place")
+			}
+		}
+	})
+}
+
+func runC07_4(c *core.Ctx) {
+	dup := c.P.Func("pkg/socket", "Dup")
+	if !c.Need("socket.Dup", dup) {
+		return
+	}
+	enrollers := map[string]bool{"gnet.(*Client).EnrollContext": true, "gnet.(*eventloop).enroll": true}
+	allFuncs(c, func(f *fn) {
+		if f.Pkg != c.P.Pkg("") || enrollers[f.Name] {
+			return
+		}
+		// parent map for return detection
+		parent := map[ast.Node]ast.Node{}
+		var stack []ast.Node
+		ast.Inspect(f.Decl.Body, func(n ast.Node) bool {
+			if n == nil {
+				stack = stack[:len(stack)-1]
+				return true
+			}
+			if len(stack) > 0 {
+				parent[n] = stack[len(stack)-1]
+			}
+			stack = append(stack, n)
+			return true
+		})
+		for _, call := range callsIn(f.Decl.Body, true) {
+			if !flow.IsCall(f.Info, call, dup) {
+				continue
+			}
+			_, isRet := parent[call].(*ast.ReturnStmt)
+			c.Check(isRet, f.Name, "socket.Dup result", call.Pos(), "duplicate handed straight to the caller",
+				"a descriptor duplicated for the user is kept in a variable/field instead of being returned directly: the framework could later close or use a descriptor the user owns")
+		}
+	})
+}
+
+func runC07_5(c *core.Ctx) {
+	v := vocabOf(c)
+	if v == nil {
+		return
+	}
+	polling := c.P.Func("pkg/netpoll", "Poller.Polling")
+	del := c.P.Func("pkg/netpoll", "Poller.Delete")
+	accept := c.P.Func("", "eventloop.accept")
+	if !c.Need("Polling", polling) || !c.Need("Delete", del) || !c.Need("accept", accept) {
+		return
+	}
+	for _, name := range []string{"eventloop.run", "eventloop.orbit"} {
+		f := getFn(c, "", name)
+		if f == nil {
+			continue
+		}
+		for _, call := range callsIn(f.Decl.Body, false) {
+			if !flow.IsCall(f.Info, call, polling) || len(call.Args) != 1 {
+				continue
+			}
+			fl, ok := ast.Unparen(call.Args[0]).(*ast.FuncLit)
+			if !ok {
+				c.Undecided(f.Name, "poll callback", call.Pos(), "Polling callback is not a function literal; idiom not recognised")
+				continue
+			}
+			fdParam, _ := f.Info.Defs[fl.Type.Params.List[0].Names[0]].(*types.Var)
+			g := f.litGraph(fl)
+			const (
+				fMiss = 1 << iota
+				fHit
+			)
+			p := &flow.Problem{Must: true}
+			p.Edge = func(e *flow.Edge, in uint64) uint64 {
+				if e.Cond == nil || e.Tag != nil {
+					return in
+				}
+				if x, y, op, ok := flow.Cmp(e.Cond); ok && flow.IsNil(f.Info, y) {
+					if o, ok := flow.ObjOf(f.Info, x).(*types.Var); ok && v.isConnPtr(o.Type()) {
+						if (op == token.EQL) == e.Sense {
+							in |= fMiss
+						} else {
+							in |= fHit
+						}
+					}
+				}
+				return in
+			}
+			sol := g.Solve(p)
+			n := 0
+			sol.Walk(func(b *flow.Block, i int, nd ast.Node, before uint64) {
+				for _, cl := range flow.Calls(nd) {
+					uses := false
+					for _, a := range cl.Args {
+						if flow.ObjOf(f.Info, a) == fdParam {
+							uses = true
+						}
+					}
+					if !uses {
+						continue
+					}
+					cf := flow.CalleeFunc(f.Info, cl)
+					isLog := cf != nil && cf.Pkg() != nil && strings.HasSuffix(cf.Pkg().Path(), "/logging")
+					if isLog || flow.IsCall(f.Info, cl, v.getConn) {
+						continue
+					}
+					n++
+					switch {
+					case before&fMiss != 0:
+						ok := flow.IsCall(f.Info, cl, del) || flow.IsCall(f.Info, cl, accept)
+						c.Check(ok, f.Name, "registry miss: "+exprStr(cl.Fun), cl.Pos(), "only listener dispatch / poller.Delete on an unknown fd",
+							"an event for a descriptor that is not in the registry is passed to "+exprStr(cl.Fun)+": the framework would do I/O on a descriptor it does not own")
+					case before&fHit != 0:
+						c.Ok(f.Name, "registry hit: "+exprStr(cl.Fun), cl.Pos(), "fd belongs to a registered conn")
+					default:
+						c.Violate(f.Name, "unguarded: "+exprStr(cl.Fun), cl.Pos(), "the event's fd is used before the registry lookup result is tested")
+					}
+				}
+			})
+			if n == 0 {
+				c.Violate(f.Name, "poll callback", fl.Pos(), "the poll callback never dispatches on the event's fd")
+			}
+		}
+	}
+}
+
+func runC07_6(c *core.Ctx) {
+	v := vocabOf(c)
+	if v == nil {
+		return
+	}
+	del := c.P.Func("pkg/netpoll", "Poller.Delete")
+	f := fnOf(c, v.closeFn)
+	if f == nil || !c.Need("Delete", del) {
+		return
+	}
+	const fDel = 1
+	p := &flow.Problem{Must: true}
+	var cur uint64
+	_ = cur
+	isDel := func(call *ast.CallExpr) bool {
+		return flow.IsCall(f.Info, call, del) && len(call.Args) == 1 && flow.FieldOf(f.Info, call.Args[0]) == v.fdF
+	}
+	isClose := func(call *ast.CallExpr) bool {
+		return flow.IsPkgFunc(f.Info, call, unixPkg, "Close") && len(call.Args) == 1 && flow.FieldOf(f.Info, call.Args[0]) == v.fdF
+	}
+	p.Node = func(b *flow.Block, i int, n ast.Node, in uint64) uint64 {
+		for _, call := range flow.Calls(n) {
+			if isDel(call) {
+				in |= fDel
+			}
+		}
+		return in
+	}
+	sol := f.Graph().Solve(p)
+	sol.Walk(func(b *flow.Block, i int, n ast.Node, before uint64) {
+		cur := before
+		for _, call := range flow.Calls(n) {
+			if isDel(call) {
+				cur |= fDel
+			}
+			if isClose(call) {
+				c.Check(cur&fDel != 0, f.Name, "Delete before Close", call.Pos(), "descriptor removed from the poller before it is closed",
+					"unix.Close(c.fd) can run before poller.Delete(c.fd): with a duplicated open file description the closed number stays registered and later events are attributed to whoever reuses it")
+			}
+		}
+	})
+	// listener.close
+	lf := getFn(c, "", "listener.close")
+	if lf == nil {
+		return
+	}
+	var onceLit *ast.FuncLit
+	for _, call := range callsIn(lf.Decl.Body, false) {
+		if cf := flow.CalleeFunc(lf.Info, call); cf != nil && cf.Name() == "Do" && cf.Pkg() != nil && cf.Pkg().Path() == "sync" && len(call.Args) == 1 {
+			onceLit, _ = ast.Unparen(call.Args[0]).(*ast.FuncLit)
+		}
+	}
+	if onceLit == nil {
+		c.Violate(lf.Name, "sync.Once", lf.Decl.Pos(), "listener.close does not run under a sync.Once: the listener descriptor can be closed twice (engine stop + loop teardown share listeners)")
+		return
+	}
+	outside := 0
+	for _, call := range callsIn(lf.Decl.Body, false) {
+		if flow.IsPkgFunc(lf.Info, call, unixPkg, "Close") {
+			outside++
+		}
+	}
+	closes, removes := 0, 0
+	netw := c.P.Field("", "listener", "network")
+	lg := lf.litGraph(onceLit)
+	const fUnix = 1
+	pp := &flow.Problem{Must: true}
+	pp.Edge = func(e *flow.Edge, in uint64) uint64 {
+		if e.Cond != nil && e.Tag == nil && e.Sense {
+			if x, y, op, ok := flow.Cmp(e.Cond); ok && op == token.EQL && flow.FieldOf(lf.Info, x) == netw {
+				if cv := flow.ConstOf(lf.Info, y); cv != nil && cv.ExactString() == `"unix"` {
+					in |= fUnix
+				}
+			}
+		}
+		return in
+	}
+	ls := lg.Solve(pp)
+	ls.Walk(func(b *flow.Block, i int, n ast.Node, before uint64) {
+		for _, call := range flow.Calls(n) {
+			if flow.IsPkgFunc(lf.Info, call, unixPkg, "Close") {
+				closes++
+			}
+			if flow.IsPkgFunc(lf.Info, call, "os", "RemoveAll") || flow.IsPkgFunc(lf.Info, call, "os", "Remove") {
+				if before&fUnix != 0 {
+					removes++
+				}
+			}
+		}
+	})
+	c.Check(closes == 1 && outside == 0, lf.Name, "close inside Once", onceLit.Pos(), "listener fd closed exactly once, inside the Once",
+		"listener.close closes the descriptor outside its sync.Once (or more than once inside)")
+	c.Check(removes >= 1, lf.Name, "unix socket file removed", onceLit.Pos(), "socket file removed for unix listeners",
+		"listener.close no longer removes the socket file of a unix-domain listener")
+}
+
+func runC07_7(c *core.Ctx) {
+	open := getFn(c, "pkg/netpoll", "OpenPoller")
+	closeF := getFn(c, "pkg/netpoll", "Poller.Close")
+	pollerT := c.P.Named("pkg/netpoll", "Poller")
+	if open == nil || closeF == nil || !c.Need("Poller", pollerT) {
+		return
+	}
+	// pointer fields dereferenced by Close without a dominating nil test
+	st := pollerT.Underlying().(*types.Struct)
+	ptrField := map[*types.Var]bool{}
+	for i := 0; i < st.NumFields(); i++ {
+		if _, ok := st.Field(i).Type().Underlying().(*types.Pointer); ok {
+			ptrField[st.Field(i)] = true
+		}
+	}
+	needs := map[*types.Var]token.Pos{}
+	g := closeF.Graph()
+	// must-fact per field: non-nil established
+	var fields []*types.Var
+	for f := range ptrField {
+		fields = append(fields, f)
+	}
+	bitOf := func(f *types.Var) uint64 {
+		for i, x := range fields {
+			if x == f {
+				return 1 << uint(i)
+			}
+		}
+		return 0
+	}
+	p := &flow.Problem{Must: true}
+	p.Edge = func(e *flow.Edge, in uint64) uint64 {
+		if e.Cond != nil && e.Tag == nil {
+			if x, y, op, ok := flow.Cmp(e.Cond); ok && flow.IsNil(closeF.Info, y) {
+				if fl := flow.FieldOf(closeF.Info, x); fl != nil && ptrField[fl] {
+					if (op == token.NEQ) == e.Sense {
+						in |= bitOf(fl)
+					}
+				}
+			}
+		}
+		return in
+	}
+	sol := g.Solve(p)
+	sol.Walk(func(b *flow.Block, i int, n ast.Node, before uint64) {
+		ast.Inspect(n, func(x ast.Node) bool {
+			if sel, ok := x.(*ast.SelectorExpr); ok {
+				if fl := flow.FieldOf(closeF.Info, sel.X); fl != nil && ptrField[fl] && before&bitOf(fl) == 0 {
+					if _, seen := needs[fl]; !seen {
+						needs[fl] = sel.Pos()
+					}
+				}
+			}
+			return true
+		})
+	})
+	// in OpenPoller: each Close call site needs the fields assigned
+	og := open.Graph()
+	op := &flow.Problem{Must: true}
+	op.Node = func(b *flow.Block, i int, n ast.Node, in uint64) uint64 {
+		if as, ok := n.(*ast.AssignStmt); ok {
+			for _, l := range as.Lhs {
+				if fl := flow.FieldOf(open.Info, l); fl != nil && ptrField[fl] {
+					in |= bitOf(fl)
+				}
+			}
+		}
+		return in
+	}
+	osol := og.Solve(op)
+	nsites := 0
+	osol.Walk(func(b *flow.Block, i int, n ast.Node, before uint64) {
+		for _, call := range flow.Calls(n) {
+			if !flow.IsCall(open.Info, call, closeF.Obj) {
+				continue
+			}
+			nsites++
+			bad := ""
+			for fl := range needs {
+				if before&bitOf(fl) == 0 {
+					bad = fl.Name()
+				}
+			}
+			c.Check(bad == "", open.Name, "poller.Close() on failure path", call.Pos(), "Close only dereferences fields already assigned here",
+				"Poller.Close dereferences p."+bad+" without a nil test, but OpenPoller calls Close on a failure path before that field is assigned: nil-pointer panic instead of an error (and the epoll descriptor leaks)")
+		}
+	})
+	if nsites == 0 {
+		c.Ok(open.Name, "no Close on failure paths", open.Decl.Pos(), "OpenPoller does not call Close itself")
+	}
 }
